@@ -22,7 +22,10 @@ RestrictI(f, S) == [x \in S |-> f[x]]
 Holder0 == [expr |-> "none", value |-> "none"]
 MInit == [holders |-> [k \in PoolPNames |-> Holder0], functions |-> [f \in PoolFNames |-> FALSE],
           ss |-> NoFnI, nss |-> 0, src |-> NoFnI, nsrc |-> 0,
-          err |-> "", ctx |-> {}]
+          err |-> "", ctx |-> {},
+          (* ghosts for the history generator: an entry of m_params / m_functions was removed again, i.e. *)
+          (* the maps were used and emptied - behaviourally the same as never used                        *)
+          paramsCleared |-> FALSE, fnRemoved |-> FALSE]
 
 (* doTransform: if (theExpression.length() > 0) setStylesheetParam(name, expression) else (name, object) *)
 Effective(h) == IF h.expr # "none" THEN h.expr ELSE h.value
@@ -36,9 +39,9 @@ Ev(m, rec) == [m |-> m, ev |-> rec @@ [errEmpty |-> (m.err = "")]]
 ISetParam(m, k, v) ==
   Ev([m EXCEPT !.holders[k] = IF v \in PoolExprVals THEN [@ EXCEPT !.expr = v] ELSE [@ EXCEPT !.value = v]],
      [e |-> "SetParam", k |-> k, v |-> v])
-IClearParams(m)   == Ev([m EXCEPT !.holders = [k \in PoolPNames |-> Holder0]], [e |-> "ClearParams"])
+IClearParams(m)   == Ev([m EXCEPT !.holders = [k \in PoolPNames |-> Holder0], !.paramsCleared = TRUE], [e |-> "ClearParams"])
 IInstallFn(m, f)  == Ev([m EXCEPT !.functions[f] = TRUE], [e |-> "InstallFn", f |-> f])
-IUninstallFn(m, f) == Ev([m EXCEPT !.functions[f] = FALSE], [e |-> "UninstallFn", f |-> f])
+IUninstallFn(m, f) == Ev([m EXCEPT !.functions[f] = FALSE, !.fnRemoved = TRUE], [e |-> "UninstallFn", f |-> f])
 
 ICompile(m, d) ==
   LET m1 == [m EXCEPT !.err = ResizeOne(@)]
